@@ -418,47 +418,70 @@ def lifecycle(kind: str) -> list:
             k, v = run(t3.disconnect())
             if k != "ok":
                 bad("disconnect-error-not-absorbed", f"close raising {close_exc!r} / wait_closed raising {wait_exc!r}: disconnect gave {k} {v!r}")
-        # connect, disconnect, connect again on the same object: the second connection is used
-        t5 = TCPTransport("h") if kind == "tcp" else SerialTransport("p")
-        target5 = "aiomysensors.transport.tcp.asyncio.open_connection" if kind == "tcp" else "aiomysensors.transport.serial.open_serial_connection"
-        for round_ in (1, 2):
-            reader = asyncio.StreamReader(loop=loop)
-            reader.feed_data(f"{round_};255;3;0;9;round{round_}\n".encode())
-            if round_ == 1:
-                reader.feed_data(b"1;2;1;0")  # the first connection drops in the middle of a line
-            reader.feed_eof()
-            w5 = FakeWriter()
+        # connect, disconnect, connect again on the same object: the second connection is used; the first
+        # disconnect is clean, or its close / wait_closed raises an OS-level error (absorbed)
+        for fault5 in (None, "close", "wait"):
+            t5 = TCPTransport("h") if kind == "tcp" else SerialTransport("p")
+            target5 = "aiomysensors.transport.tcp.asyncio.open_connection" if kind == "tcp" else "aiomysensors.transport.serial.open_serial_connection"
+            for round_ in (1, 2):
+                reader = asyncio.StreamReader(loop=loop)
+                reader.feed_data(f"{round_};255;3;0;9;round{round_}\n".encode())
+                if round_ == 1:
+                    reader.feed_data(b"1;2;1;0")  # the first connection drops in the middle of a line
+                reader.feed_eof()
+                w5 = FakeWriter(OSError("close") if fault5 == "close" and round_ == 1 else None, ConnectionResetError("wait") if fault5 == "wait" and round_ == 1 else None)
 
-            async def factory5(*a, _r=reader, _w=w5, **kw):
-                return _r, _w
+                async def factory5(*a, _r=reader, _w=w5, **kw):
+                    return _r, _w
 
-            with patch(target5, factory5):
-                k, v = run(t5.connect())
-            if k != "ok":
-                bad("reconnect", f"connect #{round_} on the same transport gave {k} {v!r}")
-                break
-            k, v = run(t5.read())
-            if k != "ok" or v.rstrip("\n") != f"{round_};255;3;0;9;round{round_}":
-                bad("reconnect-read", f"after connect #{round_} read gave {k} {v!r} (expected the line of connection #{round_})")
-            if round_ == 1:
-                k, v = run(t5.read())
-                if not (k == "raise" and isinstance(v, TransportError)):
-                    bad("midline-end", f"a stream ending in the middle of a line gave {k} {v!r}")
-            k, v = run(t5.write(f"w{round_}\n"))
-            if k != "ok" or w5.data != f"w{round_}\n".encode():
-                bad("reconnect-write", f"after connect #{round_} write gave {k} {v!r}; the new connection received {w5.data!r}")
-            k, v = run(t5.disconnect())
-            if k != "ok" or not w5.closed:
-                bad("reconnect-disconnect", f"disconnect #{round_} gave {k} {v!r}, writer closed={w5.closed}")
-
-            async def failing5(*a, **kw):
-                raise ConnectionRefusedError("refused")
-
-            if round_ == 2:
-                with patch(target5, failing5):
+                with patch(target5, factory5):
                     k, v = run(t5.connect())
-                if not (k == "raise" and isinstance(v, TransportError)):
-                    bad("reconnect-failure-not-reported", f"a failing connection attempt after earlier connections gave {k} {v!r}")
+                if k != "ok":
+                    bad(f"reconnect|first-disconnect-fault={fault5}", f"connect #{round_} on the same transport gave {k} {v!r}")
+                    break
+                k, v = run(t5.read())
+                if k != "ok" or v.rstrip("\n") != f"{round_};255;3;0;9;round{round_}":
+                    bad(f"reconnect-read|first-disconnect-fault={fault5}", f"after connect #{round_} read gave {k} {v!r} (expected the line of connection #{round_})")
+                if round_ == 1:
+                    k, v = run(t5.read())
+                    if not (k == "raise" and isinstance(v, TransportError)):
+                        bad("midline-end", f"a stream ending in the middle of a line gave {k} {v!r}")
+                k, v = run(t5.write(f"w{round_}\n"))
+                if k != "ok" or w5.data != f"w{round_}\n".encode():
+                    bad("reconnect-write", f"after connect #{round_} write gave {k} {v!r}; the new connection received {w5.data!r}")
+                k, v = run(t5.disconnect())
+                if k != "ok" or not w5.closed:
+                    bad("reconnect-disconnect", f"disconnect #{round_} gave {k} {v!r}, writer closed={w5.closed}")
+
+                async def failing5(*a, **kw):
+                    raise ConnectionRefusedError("refused")
+
+                if round_ == 2:
+                    with patch(target5, failing5):
+                        k, v = run(t5.connect())
+                    if not (k == "raise" and isinstance(v, TransportError)):
+                        bad("reconnect-failure-not-reported", f"a failing connection attempt after earlier connections gave {k} {v!r}")
+        # two transports in one process: a read waiting on a silent connection must not hold up the other one
+        ra, rb = asyncio.StreamReader(loop=loop), asyncio.StreamReader(loop=loop)
+        ta, _ = connect(kind, loop, lambda: (ra, FakeWriter()))
+        tb, _ = connect("serial" if kind == "tcp" else "tcp", loop, lambda: (rb, FakeWriter()))
+        tc, _ = connect(kind, loop, lambda: (rb, FakeWriter()))
+        pending = loop.create_task(ta.read())
+        loop.run_ready()
+        rb.feed_data(b"2;255;3;0;9;other\n3;255;3;0;9;third\n")
+        k, v = run(tb.read())
+        if k != "ok" or v.rstrip("\n") != "2;255;3;0;9;other":
+            bad("second-transport-held-up", f"while a read is waiting on one (silent) transport, the read of a line that has already arrived on another transport gave {k} {v!r}")
+        k, v = run(tc.read())
+        if k != "ok" or v.rstrip("\n") != "3;255;3;0;9;third":
+            bad("second-transport-held-up", f"while a read is waiting on one (silent) transport, the read of a line that has already arrived on another transport of the same kind gave {k} {v!r}")
+        ra.feed_data(b"1;255;3;0;9;first\n")
+        loop.run_ready()
+        if not pending.done() or pending.cancelled() or pending.exception() is not None or pending.result().rstrip("\n") != "1;255;3;0;9;first":
+            bad("waiting-read-lost", f"the read that was waiting did not return its line once it arrived: {pending!r}")
+        if not pending.done():
+            pending.cancel()
+            loop.run_ready()
         # write errors: drain raising OSError
         class BadDrain(FakeWriter):
             async def drain(self):
